@@ -65,6 +65,20 @@ CASE_INSENSITIVE = ("    except:\n        pass\n\n    if isinstance(reg, str) an
 CNOT_MSG = ("def constraint_not(field, value):\n    message = 'constraint failed: {} must not be {}'.format(field, value)\n\n"
             "    def check(**fields):\n        if fields[field] == value:\n            raise ValueError(message)\n    return check\n")
 
+ITYPE_TAIL = "\n\n    code = 0\n    code |= opcode\n    code |= rd << 7"
+RANGE_MSG = "        raise ValueError('12-bit immediate out of range: {}'.format(imm))\n"
+NT_TABLE = ("from collections import namedtuple\nField = namedtuple('Field', 'hi lo pos')\n"
+            "CIA_FIELDS = (Field(5, 5, 2), Field(8, 7, 3), Field(6, 6, 5), Field(4, 4, 6), Field(hi=9, lo=9, pos=12))\n\n\n")
+NT_LOOP = ("    code = opcode | 0b00010 << 7 | funct3 << 13\n    for f in CIA_FIELDS:\n"
+           "        code |= ((imm >> f.lo) & ((1 << (f.hi - f.lo + 1)) - 1)) << f.pos\n\n    return code")
+ADD_BINDING = "ADD        = partial(r_type,   opcode=0b0110011, funct3=0b000, funct7=0b0000000)"
+FACTORY = ("def make_r_type(shift_rd):\n    def enc(rd, rs1, rs2, *, opcode, funct3, funct7):\n        rd = lookup_register(rd)\n"
+           "        rs1 = lookup_register(rs1)\n        rs2 = lookup_register(rs2)\n"
+           "        return opcode | rd << shift_rd | funct3 << 12 | rs1 << 15 | rs2 << 20 | funct7 << 25\n    return enc\n\n\n"
+           "r_type2 = make_r_type(%d)\n\n\n")
+FENCE_IMM = "    imm = (fm << 8) | (pred << 4) | succ\n"
+IJ_MULT = "    if imm % 2 != 0:\n        raise ValueError('12-bit immediate must be a multiple of 2: {}'.format(imm))\n"
+
 PRESERVING = [
     ('p-enc-get-none', ENC, [(A, TABLE_TRY, GET_NONE)]),
     ('p-enc-membership', ENC, [(A, TABLE_TRY, MEMBER)]),
@@ -86,6 +100,14 @@ PRESERVING = [
     ('p-enc-second-name', ENC, [(A, BTYPE_SHIFT, "    half = imm >> 1\n    imm = c_uint32(half).value & 0b111111111111\n\n    imm_12")]),
     ('p-enc-reg-case-insensitive', ENC, [(A, INT_TRY, CASE_INSENSITIVE)]),
     ('p-enc-closure-message', ENC, [(A, CNOT, CNOT_MSG)]),
+    ('p-enc-unsigned-by-add', ENC, [(A, ITYPE_GUARD, "    if not -2048 <= imm < 2048:\n" + RANGE_MSG + "    imm = imm + 4096 if imm < 0 else imm" + ITYPE_TAIL, 0)]),
+    ('p-enc-range-membership', ENC, [(A, ITYPE_GUARD, "    if imm not in range(-0x800, 0x800):\n" + RANGE_MSG + "    imm = imm & 0xfff" + ITYPE_TAIL, 0)]),
+    ('p-enc-shifted-test', ENC, [(A, ITYPE_GUARD, "    if (imm >> 11) not in (0, -1):\n" + RANGE_MSG + "    imm &= 0xfff" + ITYPE_TAIL, 0)]),
+    ('p-enc-low-bit-test', ENC, [(A, IJ_MULT, "    if imm & 1:\n        raise ValueError('12-bit immediate must be a multiple of 2: {}'.format(imm))\n")]),
+    ('p-enc-namedtuple-layout', ENC, [(A, CIA_DEF, NT_TABLE + CIA_DEF), (A, CIA_BODY, NT_LOOP)]),
+    ('p-enc-partial-chain', ENC, [(A, ADD_BINDING, "ALU_OP     = partial(r_type,   opcode=0b0110011)\nADD        = partial(ALU_OP,   funct3=0b000, funct7=0b0000000)")]),
+    ('p-enc-encoder-factory', ENC, [(A, RTYPE_DEF, FACTORY % 7 + RTYPE_DEF), (A, "ADD        = partial(r_type,", "ADD        = partial(r_type2,")]),
+    ('p-enc-fields-by-arithmetic', ENC, [(A, FENCE_IMM, "    imm = fm * 256 + pred * 16 + succ\n")]),
     ('p-enc-log-call', ENC, [(A, ITYPE_GUARD, "    log.debug('i-type immediate %s', imm)\n" + ITYPE_GUARD, 0)]),
 ]
 
@@ -106,10 +128,18 @@ BREAKING = [
     ('c02-floordiv-2', ['C02'], [(A, CIW_SHIFT, "    imm = imm // 2\n")]),
     # a second name for the shifted value while the fields are still cut from the unshifted one
     ('c01-second-name-unused', ['C01'], [(A, BTYPE_SHIFT, "    half = imm >> 1\n    imm = c_uint32(imm).value & 0b111111111111\n\n    imm_12")]),
+    ('c01-unsigned-by-add-2048', ['C01'], [(A, ITYPE_GUARD, "    if not -2048 <= imm < 2048:\n" + RANGE_MSG + "    imm = imm + 2048 if imm < 0 else imm" + ITYPE_TAIL, 0)]),
+    ('c06-range-membership-wide', ['C01', 'C06'], [(A, ITYPE_GUARD, "    if imm not in range(-0x800, 0x801):\n" + RANGE_MSG + "    imm = imm & 0xfff" + ITYPE_TAIL, 0)]),
+    ('c06-shifted-test-10', ['C06'], [(A, ITYPE_GUARD, "    if (imm >> 10) not in (0, -1):\n" + RANGE_MSG + "    imm &= 0xfff" + ITYPE_TAIL, 0)]),
+    ('c02-namedtuple-entry', ['C02'], [(A, CIA_DEF, NT_TABLE.replace('Field(6, 6, 5)', 'Field(6, 6, 6)') + CIA_DEF), (A, CIA_BODY, NT_LOOP)]),
+    ('c01-partial-chain-opcode', ['C01'], [(A, ADD_BINDING, "ALU_OP     = partial(r_type,   opcode=0b0110011)\nADD        = partial(ALU_OP,   funct3=0b000, funct7=0b0000000, opcode=0b0010011)")]),
+    ('c01-encoder-factory-shift', ['C01'], [(A, RTYPE_DEF, FACTORY % 8 + RTYPE_DEF), (A, "ADD        = partial(r_type,", "ADD        = partial(r_type2,")]),
     ('c02-closure-message-value', ['C02', 'C06'], [(A, CNOT, CNOT_MSG.replace('fields[field] == value', 'fields[field] != value'))]),
 ]
 
 UNDECIDED = [
+    # overlapping fields added with carries: not a bit-disjoint union, no closed form in the domain
+    ('u-enc-fields-by-arithmetic-overlap', ['C01'], [(A, FENCE_IMM, "    imm = fm * 256 + pred * 8 + succ\n")]),
     # int spellings of a register (ecall's pre-bound rd=0, numeric operands) would raise TypeError: not modelled per spelling
     ('u-enc-except-valueerror', ['C01'], [(A, INT_TRY, "    except ValueError:\n        pass\n\n    # at this point")]),
 ]
